@@ -216,6 +216,7 @@ func TestGeometry(t *testing.T) {
 // Every ordered pair of verbs, deterministically, after each possible
 // predecessor kind (so smooth ops see quad, cubic and other predecessors).
 func TestTransitionTable(t *testing.T) {
+	harness.OnlyFirstShard(t)
 	st := harness.Counter("transition-table", "every ordered pair of the 16 non-arc drawing verbs after every third verb (16^3 sequences) under two viewBox/rectangle maps, with fixed distinct arguments")
 	n := int64(0)
 	maps := []struct {
